@@ -53,15 +53,18 @@ fn main() {
         let mut rng = case_rng(args.seed, i);
         let mut a_ex = Impl::new(); // under test: receives only the steps
         let mut b_ex = Impl::new(); // receives the steps and the probes
-        let mut g = Gen { rng: &mut rng, now: 0, deadlines: vec![], lens: vec![], hot: false };
+        let mut g = Gen { rng: &mut rng, now: 0, deadlines: vec![], lens: vec![], hot: false, state: vec![], pending: vec![] };
+        // 60 % of the sequences start from a populated keyspace (every type, short collections, TTLs)
+        if g.chance(0.6) { let mut p = g.prelude(); p.reverse(); g.pending = p; }
         let nsteps = g.rng.gen_range(8..=maxsteps.max(8));
+        let nsteps = if g.pending.is_empty() { nsteps } else { nsteps.max(16) };
         let mut last: Snapshot = vec![];
         let mut terms: Vec<String> = Vec::new();
         let mut trace: Vec<serde_json::Value> = Vec::new();
         let mut changes = 0; let mut fams = std::collections::BTreeSet::new();
         use rand::Rng as _;
         for _ in 0..nsteps {
-            let tick = g.chance(0.25);
+            let tick = g.pending.is_empty() && g.chance(0.25);
             if tick {
                 let t = g.now + g.delta();
                 let ra = a_ex.set_time(t); let rb = b_ex.set_time(t);
@@ -112,6 +115,7 @@ fn main() {
                 last = snap;
             }
             g.deadlines = last.iter().filter(|e| e.2 >= 0).map(|e| g.now + e.2 as u64).collect();
+            g.state = last.clone();
             g.lens = last.iter().filter_map(|e| match &e.1 { Dump::L(v) => Some(v.len() as i64), Dump::S(v) => Some(v.len() as i64), Dump::Z(v) => Some(v.len() as i64), _ => None }).collect();
         }
         if i % 8 == 0 { lossy_probe(&mut out, i); }
